@@ -162,7 +162,39 @@ def compare(rep, v, sent, what, replay):
     return not bad
 
 
+def _decorate_job(which):
+    def job():
+        from bromelia.bromelia import decorate_answer
+        from bromelia.base import DiameterRequest, DiameterAnswer
+        from bromelia.avps import SessionIdAVP, ResultCodeAVP, OriginHostAVP, ExperimentalResultAVP, VendorIdAVP, ExperimentalResultCodeAVP
+        out = []
+        cases = [(2001, False, b"s;1;1", 0x11), (5012, False, b"s;2;2", 0x22), (3004, True, b"s;3;3", 0x33), (4001, False, None, 0x44)]
+        if which == "b":
+            cases = [(5003, False, b"t;9;9", 0x55), (2002, True, b"t;8;8", 0x66), (1001, False, None, 0x77), (5012, False, b"t;7;7", 0x88)]
+        for rc, exp, sid, x in cases:
+            req = DiameterRequest(command_code=316, application_id=16777251)
+            req.header.hop_by_hop, req.header.end_to_end = bytes([x] * 4), bytes([x, 0, 0, x])
+            if sid:
+                req.append(SessionIdAVP(sid))
+            ans = DiameterAnswer(command_code=316, application_id=4)
+            ans.extend(([SessionIdAVP(b"own;0;0")] if sid else []) + [ResultCodeAVP(rc), OriginHostAVP("h.example")])
+            if exp:
+                ans.append(ExperimentalResultAVP([VendorIdAVP(10415), ExperimentalResultCodeAVP(rc)]))
+            sent = decorate_answer(ans, req)
+            out.append(project_sent(sent))
+        return out
+    return job
+
+
+def purity(rep):
+    from engine import concur
+    pairs = [("two answers decorated at the same time", _decorate_job("a"), _decorate_job("b"))]
+    return concur.purity_stage(rep, "decorate_answer", pairs, ("/bromelia/bromelia.py", "/bromelia/utils.py", "/bromelia/_internal_utils.py"), kmax=1200,
+                               stride=17 if rep.tier == "quick" else 1)
+
+
 def run(rep):
+    purity(rep)
     byname = dictx.by_name()
     from bromelia.bromelia import decorate_answer
     rcs = result_codes()
@@ -255,6 +287,10 @@ def run(rep):
 
 def replay(rep, path):
     r = json.load(open(path))["replay"]
+    if r.get("kind") == "purity":
+        purity(rep)
+        rep.sample(r)
+        return rep.finish()
     byname = dictx.by_name()
     from bromelia.bromelia import decorate_answer
     pairs = {(a["key"]): (q, a) for q, a in pairs_of_classes()}
